@@ -83,6 +83,10 @@ def label_index(ret, value):
     return None
 
 
+def label_index_at(ret, value, i):
+    return 0 <= i < len(ret.groups) and same_value(ret.groups[i].label.value, value)
+
+
 def judge(prog, env, outcome):
     """Compare an implementation outcome with the expectation.
     -> (verdict, detail)  verdict in 'ok' | 'skip' | 'wrong-branch' | 'wrong-group' | 'not-a-group'
@@ -108,6 +112,9 @@ def judge(prog, env, outcome):
                 return "wrong-branch", dict(expected_return=ret.ordinal, got_return=other.ordinal, got=value)
         return "not-a-group", dict(expected_return=ret.ordinal, got=value, got_type=type(value).__name__)
     if allowed is not None and idx not in allowed:
+        # a return statement may name a label more than once: the label is right if *some* allowed position carries it
+        if any(label_index_at(ret, value, i) for i in allowed):
+            return "ok", (ret.ordinal, min(i for i in allowed if label_index_at(ret, value, i)))
         return "wrong-group", dict(expected_return=ret.ordinal, allowed=sorted(allowed), got_index=idx, k=k)
     return "ok", (ret.ordinal, idx)
 
